@@ -424,6 +424,7 @@ SendToSubscriber:
 		// previous one may still be unsettled (select below could pick the send case)
 		select {
 		case <-s.closing:
+			verifhook.At("gochannel.send.discard_closing", msg.UUID, s.uuid)
 			s.logger.Trace("Closing, message discarded", logFields)
 			return
 		default:
